@@ -96,6 +96,7 @@ type interpreter struct {
 	inInit             bool
 	depth              int
 	bindInit           value
+	eqLoose            bool // vrtEquivalent in progress: nil slices / maps equal empty ones
 	hangSite           string
 }
 
